@@ -223,6 +223,16 @@ def execute(ctx, case: dict) -> None:
             elif op == "sort-key":
                 acl.sort(key=lambda o: o.line)
                 _record(acl, "sort-key")
+            elif op == "degroup-address":
+                # an entry's group address becomes a plain address through the sub-object setter; tcam counts 1 for it from now on
+                for ace in [i for i in _flat(acl.items) if type(i).__name__ == "Ace"]:
+                    tgt = ace.srcaddr if ace.srcaddr.addrgroup else (ace.dstaddr if ace.dstaddr.addrgroup else None)
+                    if tgt is not None and len(tgt.items) > 1:
+                        tgt.line = "host 10.99.99.9"
+                        base[:] = _body(acl)
+                        LOG[:] = []
+                        _record(acl, "start")
+                        break
             elif op == "reseq-shuffle-sort":
                 acl.resequence(rng.choice([10, 1, 100]), rng.choice([10, 1, 5]))
                 _record(acl, "resequence")
@@ -251,6 +261,10 @@ def gen_case(rng, thorough=False):
                 text = rng.choice(used_heads)  # duplicate heading
             else:
                 text = f"{prefix}H{idx} {rng.choice(['web', 'db', 'x,y', 'a b'])}"
+                if rng.random() < 0.3:  # distinct headings that share everything before the first comma
+                    text = f"{prefix}C-1, {rng.choice(['web', 'db', 'dmz'])} servers {idx}"
+                elif rng.random() < 0.15 and len(prefix.strip()) == 1:
+                    text = f"{prefix}{prefix.strip()}A{idx}"  # '= =A3' / '# #A3': the prefix occurs twice
                 used_heads.append(text)
             lines.append("remark " + text)
         elif roll < 0.4:
@@ -275,6 +289,8 @@ def gen_case(rng, thorough=False):
     for _ in range(rng.randint(1, 6)):
         ops.append(rng.choice(["reverse", "shuffle", "rotate", "sort-key", "sort-rev", "regroup", "shuffle", "reseq-shuffle-sort"]))
     ops.append(rng.choice(["ungroup", "reseq-shuffle-sort", "ungroup"]))
+    if members and rng.random() < 0.3:
+        ops.insert(rng.randint(0, len(ops)), "degroup-address")
     if rng.random() < 0.3:
         ops = ["reseq-shuffle-sort", "group", "reseq-shuffle-sort", "ungroup"]
     return {"platform": platform, "prefix": prefix, "text": text, "members": members, "ops": ops,
